@@ -1,7 +1,7 @@
 (* C16 — Link blocks while healthy and returns the first fatal error when it ends.
    Model: Link.v (one endpoint, all schedules, all environment behaviours incl. faults,
    cancellations, garbage frames).  Only statements; proofs in LinkInv16.v. *)
-From Verif Require Import Base Link LinkProofs LinkInv16 LinkInvE.
+From Verif Require Import Base Link LinkProofs LinkInv16 LinkInvE LinkHealthy.
 
 (* Whatever Link returns is the error of the FIRST report (the first setErr whose store reached
    the slot) — never a later, consequential one, and never while no error has been reported:
@@ -67,3 +67,30 @@ Theorem D8_refuted :
     In (EvLinkReturn EClosed) (evs s) /\ In (EvReport (EInj 1%N)) (evs s).
 Proof. exact D8_refuted_lemma. Qed.
 Print Assumptions D8_refuted.
+
+(* first clause of the property: Link does not return while the link is healthy.  For every run in
+   which nothing goes wrong — [benign] excludes exactly: cancelling the link context, a failing read,
+   an undecodable frame, an armed transport/serializer fault, a request naming a function that does
+   not exist or passing the wrong number/kind of arguments, a panicking handler — whatever else
+   happens (any traffic in both directions, application errors, per-call cancellations, late,
+   duplicate and unknown responses): nothing is reported, the pending-call table is open, the fatal
+   slot is empty, and the goroutine that called Link is before its read of the slot or waiting *)
+Theorem link_blocks_while_healthy :
+  forall calls cs s,
+    lrun fixed calls linit cs = Some s -> forallb (fun c => benign (fst c)) cs = true ->
+    bclosed s = false /\ fatal s = None /\
+    (forall e, ~ In (EvReport e) (evs s)) /\ (forall e, ~ In (EvLinkReturn e) (evs s)) /\
+    (tget (threads s) TLink = Some LBeforeRead \/ tget (threads s) TLink = Some LWaiting).
+Proof. exact healthy_link_stays_up_lemma. Qed.
+Print Assumptions link_blocks_while_healthy.
+
+Theorem healthy_run_with_application_errors :
+  exists s, lrun fixed hl_calls linit hl_schedule = Some s /\
+            forallb (fun c => benign (fst c)) hl_schedule = true /\
+            In (EvResWritten 0 8%N (Some 3%N)) (evs s) /\
+            In (EvReturn 0 70%N (Some (EApp 5%N))) (evs s) /\
+            In (EvReturn 1 zero (Some (ECtx 2%N))) (evs s) /\
+            In (EvDiscard 1%N) (evs s) /\
+            tget (threads s) TLink = Some LWaiting.
+Proof. exact healthy_run_example. Qed.
+Print Assumptions healthy_run_with_application_errors.
